@@ -27,6 +27,16 @@ def _strable(t: str) -> bool:
 
 def _calls(name: str, ptypes: list[str], rng: random.Random, n: int, idx_params: set[int] | None = None) -> list[dict[str, Any]]:
     out = []
+    if idx_params and len(idx_params) == 1:
+        # one index operand: every index of a small domain around the container's bounds, for two container values
+        ip = next(iter(idx_params))
+        for _ in range(2):
+            fixed = {i: val(t, rng) for i, t in enumerate(ptypes) if i != ip}
+            for ix in range(-7, 8):
+                setup = [f"a{i} = {ix if i == ip else fixed[i]}" for i in range(len(ptypes))]
+                out.append({"setup": setup, "call": f"{name}({', '.join(f'a{i}' for i in range(len(ptypes)))})",
+                            "post": [f"a{i}" for i, t in enumerate(ptypes) if t.startswith(("list", "dict", "set")) or t in ("Pt", "Any")]})
+        n = 4
     for _ in range(n):
         setup = []
         for i, t in enumerate(ptypes):
@@ -46,7 +56,7 @@ def t_prim(rng: random.Random, u: str, hostile: bool = False) -> Unit:
     if hostile:
         hc = [p for p in cands if any("Any" in a for a in p.args)]
         cands = hc or cands
-    p = rng.choice(cands)
+    p = rng.choices(cands, weights=[3.0 if ("[{1}]" in q.tmpl or "pop({1})" in q.tmpl) else 1.0 for q in cands])[0]
     ptypes = [a[2:] if a.startswith("v:") else a for a in p.args]
     tm = p.tmpl
     for nm in ("__x", "__i", "__s", "__k", "__v", "__h"):
@@ -768,7 +778,8 @@ def t_store(rng: random.Random, u: str, hostile: bool = False) -> Unit:
     calls = []
     for k in range(6):
         n = rng.choice([0, 1, 2, 3, 4])
-        calls.append({"setup": [f"x = {mk()}", "box = [" + ", ".join(mk() for _ in range(n)) + "]"], "call": f"{u}_f(x, box)", "post": ["box"], "hostile": t == "Any"})
+        calls.append({"setup": [f"x = {mk()}", "box = [" + ", ".join(mk() for _ in range(n)) + "]"], "call": f"{u}_f(x, box)", "post": ["box"], "hostile": t == "Any",
+                      **({"stateful": True} if variant == "global" else {})})
     return {"src": "\n".join(src), "calls": calls, "tags": ["store." + variant, "store.type:" + ann], "kind": "store:" + variant, "classes": {f"{u}H": ["v"]}}
 
 
